@@ -119,7 +119,7 @@ impl Group {
         let mut cursor: Option<String> = None;
         loop {
             let page = self
-                .q::<cw4::MemberListResponse>(cw4_group::msg::QueryMsg::ListMembers { start_after: cursor.clone(), limit: Some(30) })
+                .q::<cw4::MemberListResponse>(cw4_group::msg::QueryMsg::ListMembers { start_after: cursor.clone(), limit: Some(3) })
                 .ok()
                 .map(|r| r.members)
                 .unwrap_or_default();
@@ -128,7 +128,7 @@ impl Group {
             }
             cursor = page.last().map(|m| m.addr.clone());
             out.extend(page.into_iter().map(|m| (m.addr, m.weight)));
-            if out.len() > 10_000 {
+            if out.len() > 500 {
                 break;
             }
         }
